@@ -293,3 +293,254 @@ theorem collision_of_mac_eq (P : Prims) (idPub nodeID body : Bytes) (h1 h2 : Int
   exact hne (epochStr_injective _ _ (List.append_cancel_left h))
 
 end O4.Handshake
+
+namespace O4.Obfs4Server
+open O4.Consts.Obfs4 O4.Consts.Ntor O4.RF O4.Handshake
+
+/-- the mark search of a fresh connection depends on the bridge identity and the bytes only -/
+theorem markPos_fresh (P : Prims) (F : Factory) (c c' : Conn) (blob : Bytes) :
+    markPos P (newServer F c) blob = markPos P (newServer F c') blob := rfl
+
+/-- the received MAC as the replay filter sees it -/
+def digestAt (blob : Bytes) (pos : Nat) : Nat := Bytes.toNatBE (macAt blob pos)
+
+/-- `serverAccept` as seen by the replay filter -/
+theorem serverAccept_filter (P : Prims) (F : Factory) (c : Conn) (f : Filter) (blob : Bytes) (H now : Int)
+    (hw : WF f now) (hl : f.fifo.length + 1 < f.cap) :
+    let r := serverAccept P F c f blob H now
+    r.1.ttl = f.ttl ∧ r.1.cap = f.cap ∧ WF r.1 now ∧
+    (∀ e ∈ f.fifo, now - e.t < f.ttl → e ∈ r.1.fifo) ∧
+    (∀ seed ch, r.2 = .accepted seed ch → ∃ pos, markPos P (newServer F c) blob = some pos ∧
+      blob.length = pos + markLength + macLength ∧
+      (⟨digestAt blob pos, now⟩ : Entry) ∈ r.1.fifo ∧ ¬ Young f now (digestAt blob pos) ∧
+      ∃ off ∈ ([0, -1, 1] : List Int),
+        mac P F.idPub F.nodeID (bodyAt blob pos) (H + off) = macAt blob pos ∧ ch = some (H + off)) := by
+  intro r
+  have hp := parse_filter P (newServer F c) f H now blob hw hl
+  simp only at hp
+  obtain ⟨p1, p2, p3, p4, p5⟩ := hp
+  have hr : r = serverAccept P F c f blob H now := rfl
+  unfold serverAccept at hr
+  rcases hq : parseClientHandshake P (newServer F c) f H now blob with ⟨hs', f', res⟩
+  rw [hq] at hr p1 p2 p3 p4 p5
+  simp only at p1 p2 p3 p4 p5
+  cases res with
+  | ok seed =>
+    simp only at hr
+    rw [hr]
+    refine ⟨p1, p2, p3, p4, ?_⟩
+    intro seed' ch hacc
+    simp only [Outcome.accepted.injEq] at hacc
+    obtain ⟨pos, q1, q2, q3, q4, off, ho, q5, q6⟩ := p5 seed rfl
+    exact ⟨pos, q1, q2, q3, q4, off, ho, q5, by rw [← hacc.2]; exact q6⟩
+  | err e =>
+    simp only at hr
+    rw [hr]
+    exact ⟨p1, p2, p3, p4, by intro seed ch h; simp at h⟩
+
+/-- the clock never runs backwards along the history, starting at `t` -/
+def MonotoneFrom : Int → List Submission → Prop
+  | _, [] => True
+  | t, s :: rest => t ≤ s.now ∧ MonotoneFrom s.now rest
+
+/-- at every submission the replay filter has room (fewer than `cap − 1` remembered entries) -/
+def Below (P : Prims) (F : Factory) : Filter → List Submission → Prop
+  | _, [] => True
+  | f, s :: rest => f.fifo.length + 1 < f.cap ∧ Below P F (serverAccept P F s.conn f s.blob s.hour s.now).1 rest
+
+/-- time of the last submission (or `t`) -/
+def lastNow : Int → List Submission → Int
+  | t, [] => t
+  | _, s :: rest => lastNow s.now rest
+
+theorem runHistory_cons (P : Prims) (F : Factory) (f : Filter) (s : Submission) (rest : List Submission) :
+    runHistory P F f (s :: rest) =
+      ((runHistory P F (serverAccept P F s.conn f s.blob s.hour s.now).1 rest).1,
+       (serverAccept P F s.conn f s.blob s.hour s.now).2 ::
+        (runHistory P F (serverAccept P F s.conn f s.blob s.hour s.now).1 rest).2) := rfl
+
+theorem runHistory_append (P : Prims) (F : Factory) (f : Filter) (x y : List Submission) :
+    runHistory P F f (x ++ y) =
+      ((runHistory P F (runHistory P F f x).1 y).1,
+       (runHistory P F f x).2 ++ (runHistory P F (runHistory P F f x).1 y).2) := by
+  induction x generalizing f with
+  | nil => rfl
+  | cons s rest ih => simp only [List.cons_append, runHistory_cons, ih]
+
+theorem runHistory_length (P : Prims) (F : Factory) (f : Filter) (x : List Submission) :
+    (runHistory P F f x).2.length = x.length := by
+  induction x generalizing f with
+  | nil => rfl
+  | cons s rest ih => simp [runHistory_cons, ih]
+
+theorem MonotoneFrom.append {t : Int} {x y : List Submission} (h : MonotoneFrom t (x ++ y)) :
+    MonotoneFrom t x ∧ MonotoneFrom (lastNow t x) y := by
+  induction x generalizing t with
+  | nil => exact ⟨trivial, h⟩
+  | cons s rest ih =>
+    simp only [List.cons_append, MonotoneFrom] at h
+    have := ih h.2
+    exact ⟨⟨h.1, this.1⟩, this.2⟩
+
+theorem MonotoneFrom.le_last {t : Int} {x : List Submission} (h : MonotoneFrom t x) : t ≤ lastNow t x := by
+  induction x generalizing t with
+  | nil => exact Int.le_refl _
+  | cons s rest ih => simp only [MonotoneFrom] at h; exact Int.le_trans h.1 (ih h.2)
+
+theorem MonotoneFrom.le_all {t : Int} {x : List Submission} (h : MonotoneFrom t x) :
+    ∀ s ∈ x, t ≤ s.now ∧ s.now ≤ lastNow t x := by
+  induction x generalizing t with
+  | nil => intro s hs; simp at hs
+  | cons s0 rest ih =>
+    simp only [MonotoneFrom] at h
+    intro s hs
+    simp only [List.mem_cons] at hs
+    rcases hs with rfl | hs
+    · exact ⟨h.1, h.2.le_last⟩
+    · have := ih h.2 s hs
+      exact ⟨Int.le_trans h.1 this.1, this.2⟩
+
+theorem Below.append {P : Prims} {F : Factory} {f : Filter} {x y : List Submission}
+    (h : Below P F f (x ++ y)) : Below P F f x ∧ Below P F (runHistory P F f x).1 y := by
+  induction x generalizing f with
+  | nil => exact ⟨trivial, h⟩
+  | cons s rest ih =>
+    simp only [List.cons_append, Below] at h
+    have := ih h.2
+    exact ⟨⟨h.1, this.1⟩, by rw [runHistory_cons]; exact this.2⟩
+
+/-- **the filter along a history** (monotone clock, room at every step): it stays well-formed with
+    its TTL, and an entry that is still young at the *end* of the history is still remembered -/
+theorem history_keeps (P : Prims) (F : Factory) :
+    ∀ (x : List Submission) (f : Filter) (t : Int), WF f t → MonotoneFrom t x → Below P F f x →
+      (runHistory P F f x).1.ttl = f.ttl ∧ WF (runHistory P F f x).1 (lastNow t x) ∧
+      (∀ e ∈ f.fifo, lastNow t x - e.t < f.ttl → e ∈ (runHistory P F f x).1.fifo) := by
+  intro x
+  induction x with
+  | nil => intro f t hw _ _; exact ⟨rfl, hw, fun e he _ => he⟩
+  | cons s rest ih =>
+    intro f t hw hm hb
+    simp only [MonotoneFrom] at hm
+    simp only [Below] at hb
+    have hsa := serverAccept_filter P F s.conn f s.blob s.hour s.now (hw.mono hm.1) hb.1
+    simp only at hsa
+    obtain ⟨a1, a2, a3, a4, _⟩ := hsa
+    have := ih _ s.now a3 hm.2 hb.2
+    rw [runHistory_cons]
+    simp only [lastNow]
+    refine ⟨by rw [this.1, a1], this.2.1, ?_⟩
+    intro e he hy
+    have hle := hm.2.le_last
+    exact this.2.2 e (a4 e he (by omega)) (by rw [a1]; exact hy)
+
+end O4.Obfs4Server
+
+namespace O4.Handshake
+open O4.Consts.Obfs4 O4.Consts.Ntor O4.RF
+
+/-- the key seed of an accepting parse is the ntor result — it does not depend on the filter -/
+theorem parse_ok_seed (P : Prims) (s : Server) (f : Filter) (H now : Int) (resp seed : Bytes)
+    (h : (parseClientHandshake P s f H now resp).2.2 = .ok seed) :
+    seed = (ntorOf P s (cacheOn P s resp)).2.1 := by
+  rw [parse_unfold] at h
+  split at h
+  · simp at h
+  · cases hp : markPos P s resp with
+    | none => rw [hp] at h; simp only at h; split at h <;> simp at h
+    | some pos =>
+      rw [hp] at h
+      simp only at h
+      rcases hm : macLoop P (withCache P s resp) (bodyAt resp pos) (macAt resp pos) H now [0, -1, 1] f none with ⟨g, v⟩
+      rw [hm] at h
+      rcases v with e | o
+      · cases e; simp at h
+      · cases o with
+        | none => simp at h
+        | some h0 =>
+          simp only at h
+          split at h
+          · simp at h
+          · split at h
+            · simp at h
+            · simp only [ServerResult.ok.injEq] at h; exact h.symm
+
+/-- the loop over `[0, -1, 1]` when the received MAC is not in the filter: it is accepted unless two
+    different offsets both match -/
+theorem macLoop_fresh (P : Prims) (s : Server) (body macRx : Bytes) (H now : Int) (g : Filter)
+    (hfresh : ∀ e ∈ g.fifo, e.d ≠ Bytes.toNatBE macRx)
+    (hvalid : ∃ off ∈ ([0, -1, 1] : List Int), mac P s.idPub s.nodeID body (H + off) = macRx) :
+    (macLoop P s body macRx H now [0, -1, 1] g none).2 ≠ .error () ∨
+    ∃ o1 ∈ ([0, -1, 1] : List Int), ∃ o2 ∈ ([0, -1, 1] : List Int), o1 ≠ o2 ∧
+      mac P s.idPub s.nodeID body (H + o1) = mac P s.idPub s.nodeID body (H + o2) := by
+  have hts : (g.testAndSet now (Bytes.toNatBE macRx)).2 = false := tas_absent g now _ hfresh
+  have e0 : H + 0 = H := Int.add_zero H
+  by_cases h0 : mac P s.idPub s.nodeID body H = macRx <;>
+  by_cases h1 : mac P s.idPub s.nodeID body (H + -1) = macRx <;>
+  by_cases h2 : mac P s.idPub s.nodeID body (H + 1) = macRx
+  · right; exact ⟨0, by simp, -1, by simp, by decide, by rw [e0, h0, h1]⟩
+  · right; exact ⟨0, by simp, -1, by simp, by decide, by rw [e0, h0, h1]⟩
+  · right; exact ⟨0, by simp, 1, by simp, by decide, by rw [e0, h0, h2]⟩
+  · left; simp [macLoop, h0, h1, h2, hts]
+  · right; exact ⟨-1, by simp, 1, by simp, by decide, by rw [h1, h2]⟩
+  · left; simp [macLoop, h0, h1, h2, hts]
+  · left; simp [macLoop, h0, h1, h2, hts]
+  · exfalso
+    obtain ⟨off, ho, hm⟩ := hvalid
+    simp only [List.mem_cons, List.not_mem_nil, or_false] at ho
+    rcases ho with rfl | rfl | rfl
+    · rw [e0] at hm; exact h0 hm
+    · exact h1 hm
+    · exact h2 hm
+
+/-- a MAC with a young entry in the filter is never accepted: the verdict is `replayed` if some
+    hour of the window (still) matches and `invalidHandshake` otherwise -/
+theorem parse_seen (P : Prims) (s : Server) (f : Filter) (H now : Int) (resp : Bytes) (pos : Nat)
+    (hw : WF f now) (hl : f.fifo.length + 1 < f.cap)
+    (hlen : clientMinHandshakeLength ≤ resp.length) (hpos : markPos P s resp = some pos)
+    (hy : Young f now (Bytes.toNatBE (macAt resp pos))) :
+    (parseClientHandshake P s f H now resp).2.2 = .err .replayed ∨
+    (parseClientHandshake P s f H now resp).2.2 = .err .invalidHandshake := by
+  rw [parse_unfold, if_neg (by omega), hpos]
+  simp only
+  have hml := macLoop_filter P (withCache P s resp) (bodyAt resp pos) (macAt resp pos) H now [0, -1, 1] f none hw
+    (Or.inl ⟨rfl, hl⟩)
+  simp only at hml
+  rcases hm : macLoop P (withCache P s resp) (bodyAt resp pos) (macAt resp pos) H now [0, -1, 1] f none with ⟨f', v⟩
+  rw [hm] at hml
+  rcases v with e | o
+  · cases e; left; rfl
+  · cases o with
+    | none => right; rfl
+    | some h => exact absurd hy ((hml.2.2.2.2 h rfl).2 trivial)
+
+end O4.Handshake
+
+namespace O4.Obfs4Server
+open O4.Consts.Obfs4 O4.Handshake O4.RF
+
+theorem splitReads_small (b : Bytes) (h : b.length ≤ maxHandshakeLength) : splitReads b.length b = [b] := by
+  cases hb : b.length with
+  | zero => rfl
+  | succ n => unfold splitReads; rw [if_pos (by omega)]
+
+/-- one read delivering a buffer the parser rejects for good: the deadline, then `closeAfterDelay` -/
+theorem run_single_fatal (P : Prims) (F : Factory) (c : Conn) (f : Filter) (H now : Int) (chunk : Bytes)
+    (hs' : Server) (f' : Filter) (er : HsErr)
+    (hlen : chunk.length ≤ maxHandshakeLength)
+    (hp : parseClientHandshake P (newServer F c) f H now chunk = (hs', f', .err er))
+    (hne : er ≠ .markNotFoundYet) :
+    (run P F c f [⟨now, H, .recv chunk⟩]).2 = initOuts c ++ (fail F c now (.hs er) false).2 := by
+  simp only [run, trace, normalize, List.flatMap_cons, List.flatMap_nil, normalizeEv, splitReads_small chunk hlen,
+    List.map_cons, List.map_nil, List.append_nil, runFrom, initState, step, List.nil_append, hp, if_neg hne,
+    List.flatten_cons, List.flatten_nil]
+
+/-- what the peer sees of `closeAfterDelay` does not depend on *which* fatal error it was -/
+theorem fail_wire_uniform (F : Factory) (c : Conn) (now : Int) (e1 e2 : Err) (sticky : Bool) :
+    wire (fail F c now e1 sticky).2 = wire (fail F c now e2 sticky).2 := by
+  unfold fail
+  simp only
+  split
+  · simp [wire, List.filter, Out.isWire]
+  · split <;> simp [wire, List.filter, Out.isWire]
+
+end O4.Obfs4Server
